@@ -158,15 +158,16 @@ def run(tier):
             continue
         elif op == "scalars":
             name, st = c["name"], c.get("st", "float")
-            fs, fp = al.scalars(name, st)
-            cid = (name, "scalars", st)
+            zs = c.get("zeros", "none")
+            fs, fp = al.scalars(name, st, zs)
+            cid = (name, "scalars", st, zs)
             try:
                 ok = al.close(fs(), fp()) if "32" in st or "int" in st else al.identical(fs(), fp())
             except Exception as ex:  # noqa: BLE001
-                j.fail("%s|%s|scalars-vs-packed;%s|raised-%s" % (PID, name, st, type(ex).__name__), {"kind": "scalars", "call": c}, cid)
+                j.fail("%s|%s|scalars-vs-packed;%s;zeros=%s|raised-%s" % (PID, name, st, zs, type(ex).__name__), {"kind": "scalars", "call": c}, cid)
                 continue
             if not ok:
-                j.fail("%s|%s|scalars-vs-packed;%s|differ" % (PID, name, st), {"kind": "scalars", "call": c}, cid)
+                j.fail("%s|%s|scalars-vs-packed;%s;zeros=%s|differ" % (PID, name, st, zs), {"kind": "scalars", "call": c}, cid)
             else:
                 j.ok(cid)
     j.sample({"case": cases[10]})
